@@ -1,0 +1,47 @@
+//go:build verif
+
+// Contracts for govc (contract-based deductive verification); comment-only, compiled only with -tags verif.
+package db
+
+// ---- transactions (C07, C04, C14). Ghost state of a transaction object:
+//   txState: 0 open, 1 committed, 2 rolled back;  undoCnt: rollback callbacks registered on it.
+// SQLite / database/sql semantics are assumed (A5): a statement or a commit either takes effect or fails
+// leaving the transaction as it was; a rollback discards everything the transaction did.
+
+//@ ghost field txState int of github.com/agglayer/aggkit/db.Tx
+//@ ghost field undoCnt int of github.com/agglayer/aggkit/db.Tx
+//@ ghost var lastTx *Tx
+
+//@ interface github.com/agglayer/aggkit/db/types.DBer.BeginTx (self, ctx, opts)
+//@   modifies nothing
+//@   ensures result1 != nil ==> result0 == nil
+//@   ensures result1 == nil ==> result0 != nil
+
+//@ func NewTx
+//@   props C07 C04 C14
+//@   requires db != nil
+//@   modifies lastTx
+//@   set lastTx := ite(result1 == nil, result0, old(lastTx))
+//@   ensures[opened] result1 == nil ==> result0 != nil && fresh(result0) && txState(result0) == 0 && undoCnt(result0) == 0 && lastTx == result0
+//@   ensures[failed] result1 != nil ==> result0 == nil && lastTx == old(lastTx)
+
+//@ interface github.com/agglayer/aggkit/db/types.Txer.Exec (self, query, args)
+//@   requires self != nil
+//@   modifies nothing
+
+//@ interface github.com/agglayer/aggkit/db/types.Txer.Commit (self)
+//@   requires self != nil
+//@   modifies txState(self)
+//@   ensures result == nil ==> txState(self) == 1
+//@   ensures result != nil ==> txState(self) == old(txState(self))
+
+// a rollback runs the registered callbacks; the only callbacks in the module are the append-only tree's
+// (they write AppendOnlyTree.lastIndex and nothing else: checked on the closure itself)
+//@ interface github.com/agglayer/aggkit/db/types.Txer.Rollback (self)
+//@   requires self != nil
+//@   modifies txState(self), region("tree.AppendOnlyTree.lastIndex")
+//@   ensures old(txState(self)) == 0 ==> txState(self) == 2
+//@   ensures old(txState(self)) != 0 ==> txState(self) == old(txState(self))
+
+//@ interface database/sql.Result.RowsAffected (self)
+//@   modifies nothing
